@@ -15,4 +15,5 @@ INVARIANT SingleStep
 INVARIANT SingleShared
 INVARIANT InvNoPartialVerdict
 INVARIANT TempsRemoved
+INVARIANT MemorySound
 ACTION_CONSTRAINT DumpTransition
